@@ -43,6 +43,11 @@ class ModelTable:
         inner = [h for h in hits if len(h[0]) <= len(segs)]
         if inner and len({id(h[1][0]) for h in inner}) == 1:
             return inner[0][1]
+        # a bare function name (trimmed path) is a free function: associated functions are printed as Type::name
+        if len(segs) == 1:
+            free = [h for h in hits if len(h[0]) >= 2 and not h[0][-2][:1].isupper()]
+            if free and len({id(h[1][0]) for h in free}) == 1:
+                return free[0][1]
         # a trimmed path is unique in the build that printed it; in the sync build that is std's item
         stdhits = [h for h in hits if h[0][0] in ("std", "core", "alloc")]
         if stdhits and len({id(h[1][0]) for h in stdhits}) == 1 and segs[0] not in ("async_std", "tokio", "futures"):
